@@ -41,8 +41,8 @@ def run(ctx):
     for x in res.sreports:
         if x.get("emitc", "").startswith("own: initialised but never consumed") and meaning.get(x["id"], False):
             p, case = res.cases[x["id"]]
-            f = tvcheck.match_shape(ctx, p, None)
-            if not f:
+            # (no listed finding drops an effect: the shapes of known_findings.json misplace effects, they never lose them)
+            if True:
                 ctx.violation("an effect is declared but never sequenced (%s): %s" % (x["emitc"], p["text"][:200]),
                               {"kind": "unsequenced", "program": p, "report": x})
     for u in res.unreadable:
